@@ -98,7 +98,13 @@ def sweep_budget(tad, n_sweeps=None, n_states=None, extra_modules=(), on_reward_
             if allowed is not None:
                 shim.budget = shim.sweeps + allowed
                 shim.step_budget = shim.steps + (allowed + 2) * max(1, len(self.state_list))
-            return orig_vi(self, *a, **k)
+            try:
+                return orig_vi(self, *a, **k)
+            finally:
+                # a later solve under the same budget (batch runs) starts with a fresh reach-phase allowance
+                if n_sweeps is not None:
+                    shim.budget = shim.sweeps + n_sweeps
+                    shim.step_budget = shim.steps + (n_sweeps + 2) * max(1, len(self.state_list))
         saved_methods.append((solver_cls, "value_iteration_total_rewards", orig_vi))
         solver_cls.value_iteration_total_rewards = vi_wrapped
     if shim.step_budget is not None:
